@@ -369,8 +369,14 @@ def judge_pipelined(case, out, baseline):
         bad("fault_not_reported_as_451")
     if out["after"] != "257":
         bad("session_unusable_afterwards")
-    # (the order of replies to pipelined commands is not judged: unknown verbs are answered at parse time, handlers when
-    #  their task runs, failures when the dispatcher collects the task - none of the listed properties orders them)
+    # replies are matched to commands by their order: up to the failing command the replies are those of the fault-free run,
+    # and the first one that differs is the 451 (the failed command is "never answered with a success reply")
+    if out["fired"]:
+        base = baseline
+        i = next((j for j, (a, b) in enumerate(zip(out["replies"], base)) if a != b), None)
+        if i is not None and out["replies"][i] != "451":
+            detail["first_difference_at"] = i
+            bad("reply_of_failed_command_out_of_place")
 
 
 def pipelined_cases(tier):
